@@ -346,7 +346,9 @@ impl OwnedSegment {
 
     pub fn can_start_with(&self, prefix: &OwnedSegment) -> bool {
         match (self, prefix) {
-            (OwnedSegment::Index(a), OwnedSegment::Index(b)) => a == b,
+            // A negative index counts from the end, so it can address the same element as any
+            // non-negative index (`[-1]` and `[0]` of a one-element array).
+            (OwnedSegment::Index(a), OwnedSegment::Index(b)) => a == b || (*a < 0) != (*b < 0),
             (OwnedSegment::Index(_), _) | (_, OwnedSegment::Index(_)) => false,
             (OwnedSegment::Field(a), OwnedSegment::Field(b)) => a == b,
         }
